@@ -809,6 +809,72 @@ func (c *Ctx) checkHashable(r *Report) {
 			}
 		}
 	}
+	// tags some of whose concrete types are keyed by identity (pointer, slice): `true` is only returned for
+	// them once the value was narrowed, by a comma-ok assertion, to a representation that is keyed by value
+	byIdentity := func(t types.Type) bool {
+		switch t.Underlying().(type) {
+		case *types.Pointer, *types.Slice, *types.Map, *types.Chan, *types.Signature:
+			return true
+		}
+		return false
+	}
+	for _, ib := range fn.Blocks {
+		ifi, ok := ib.Instrs[len(ib.Instrs)-1].(*ssa.If)
+		if !ok {
+			continue
+		}
+		bin, ok := ifi.Cond.(*ssa.BinOp)
+		if !ok || bin.Op != token.EQL {
+			continue
+		}
+		tag, ok := constInt(bin.Y)
+		if !ok {
+			continue
+		}
+		var idTypes []string
+		for _, ct := range tagTypes[tag] {
+			if byIdentity(ct) {
+				idTypes = append(idTypes, typeShort(ct))
+			}
+		}
+		if len(idTypes) == 0 {
+			continue
+		}
+		arm := ib.Succs[0]
+		if len(arm.Preds) != 1 {
+			continue
+		}
+		bad := ""
+		for _, b := range fn.Blocks {
+			if !(b == arm || arm.Dominates(b)) {
+				continue
+			}
+			ret, ok := b.Instrs[len(b.Instrs)-1].(*ssa.Return)
+			if !ok || len(ret.Results) != 1 {
+				continue
+			}
+			if k, ok := ret.Results[0].(*ssa.Const); !ok || k.Value == nil || k.Value.ExactString() != "true" {
+				continue
+			}
+			narrowed := false
+			for _, cc := range controlling(b) {
+				ex, ok := cc.Cond.(*ssa.Extract)
+				if !ok || ex.Index != 1 || cc.Edge != 0 {
+					continue
+				}
+				if ta, ok := ex.Tuple.(*ssa.TypeAssert); ok && ta.CommaOk && ta.X == ssa.Value(fn.Params[0]) && !byIdentity(ta.AssertedType) {
+					if _, isIface := ta.AssertedType.Underlying().(*types.Interface); !isIface {
+						narrowed = true
+					}
+				}
+			}
+			if !narrowed {
+				bad = c.Pos(ret.Pos())
+			}
+		}
+		r.Check(bad == "", "C04.R4", fname, fmt.Sprintf("tag %s is accepted only for its by-value representation", names[tag]), c.Pos(ifi.Pos()),
+			fmt.Sprintf("Hashable returns true (%s) for tag %s without narrowing the argument to a representation that is keyed by value: %s is keyed by identity in the Go map of the cache, and it is updated in place, so a memoized call on the same large container returns the result computed for its old content", bad, names[tag], strings.Join(idTypes, ", ")))
+	}
 	// composite arms: comma-ok assertions to struct types with Object components
 	eachInstr(fn, func(in ssa.Instruction) {
 		ta, ok := in.(*ssa.TypeAssert)
